@@ -111,10 +111,10 @@ var devProp = pbt.Define(pbt.Prop[devCase]{Kind: "presign-deviation", Run: devRu
 
 func applicable(variant, dev string) bool {
 	if variant == proto.CMPPresignOnline {
-		return dev == "sigma-share"
+		return strings.HasPrefix(dev, "sigma-")
 	}
 	if variant == proto.CMPPresign {
-		return dev != "sigma-share"
+		return !strings.HasPrefix(dev, "sigma-")
 	}
 	return true
 }
@@ -163,11 +163,16 @@ func TestSigmaShare(t *testing.T) {
 		for _, l := range c.lens {
 			for _, n := range c.ns {
 				for cheater := 0; cheater < n; cheater++ {
-					i++
-					if !rec.Mine(i) {
-						continue
+					for _, dev := range []string{"sigma-share", "sigma-neg"} {
+						if dev == "sigma-neg" && l != 0 && l != 64 {
+							continue
+						}
+						i++
+						if !rec.Mine(i) {
+							continue
+						}
+						devProp.One(t, devCase{Variant: c.variant, Signers: n, Cheater: cheater, Deviation: dev, Seed: 1, MsgLen: l})
 					}
-					devProp.One(t, devCase{Variant: c.variant, Signers: n, Cheater: cheater, Deviation: "sigma-share", Seed: 1, MsgLen: l})
 				}
 			}
 		}
